@@ -615,11 +615,6 @@ func (x *exec) backEdge(li *loopInfo, s *State) {
 	if li == nil || x.e.dry > 0 {
 		return
 	}
-	for _, key := range li.frameKeys {
-		if g := x.frameGoal(key, s); g != nil {
-			x.oblige("inv-pres", fmt.Sprintf("loop%d.frame.%s", li.ordinal, shortHeapKey(key)), li.pos, s, g, "automatic frame invariant ("+key+")")
-		}
-	}
 	if li.spec == nil {
 		return
 	}
@@ -647,6 +642,10 @@ func (x *exec) backEdge(li *loopInfo, s *State) {
 func (x *exec) step(s *State, in ssa.Instruction) bool {
 	e := x.e
 	c := e.C
+	if p := in.Pos(); p.IsValid() {
+		x.pos = p
+	}
+	e.cur = x
 	switch i := in.(type) {
 	case *ssa.DebugRef:
 		return true
@@ -906,12 +905,7 @@ func (x *exec) zeroArray(s *State, arr *Term, at *types.Array) {
 	c := e.C
 	el := at.Elem()
 	if structOf(el) != nil {
-		if at.Len() > 16 {
-			e.unsupported("large array of structs")
-		}
-		for k := int64(0); k < at.Len(); k++ {
-			e.store(s, PtrV{Kind: PObj, Ref: e.elemRef(arr, c.IntC(k)), T: el}, e.zero(el))
-		}
+		x.zeroStructElems(s, arr, el)
 		return
 	}
 	zs, err := e.toLeaves(el, e.zero(el))
@@ -929,10 +923,9 @@ func (x *exec) nilCheck(s *State, p PtrV, pos token.Pos) {
 	c := x.e.C
 	switch p.Kind {
 	case PObj, PBox:
-		if p.Ref.Op == "app" || p.Ref.Op == "const" && p.Ref.Facts != nil && false {
-			// sub-objects and elements are never nil
-		}
-		if p.Ref.Op == "app" && (p.Ref.Name == "elem" || len(p.Ref.Name) > 4 && p.Ref.Name[:4] == "sub:") {
+		// sub-objects of a non-nil object are never nil
+		if p.Ref.Op == "app" && len(p.Ref.Name) > 4 && p.Ref.Name[:4] == "sub:" {
+			x.nilCheck(s, PtrV{Kind: PObj, Ref: p.Ref.Args[0], T: p.T}, pos)
 			return
 		}
 		x.oblige("nil", "", pos, s, c.Ne(p.Ref, c.IntC(0)), "nil dereference")
@@ -1138,7 +1131,7 @@ func (x *exec) indexAddr(s *State, i *ssa.IndexAddr) Value {
 
 func (x *exec) elemPtr(arr, idx *Term, el types.Type) PtrV {
 	if structOf(el) != nil {
-		return PtrV{Kind: PObj, Ref: x.e.elemRef(arr, idx), T: el}
+		return x.e.elemObj(arr, idx, el)
 	}
 	return PtrV{Kind: PElem, Arr: arr, Idx: idx, T: el}
 }
@@ -1157,7 +1150,7 @@ func (x *exec) index(s *State, i *ssa.Index) Value {
 	case *Term: // string
 		if b.Sort == Str {
 			x.oblige("bounds", "", i.Pos(), s, c.And(c.Le(c.IntC(0), idx), c.Lt(idx, e.strLen(b))), "string index out of range")
-			return c.App("str.at", BV8, b, idx)
+			return c.App("s.at", BV8, b, idx)
 		}
 	case ArrayV:
 		at := i.X.Type().Underlying().(*types.Array)
@@ -1210,8 +1203,8 @@ func (x *exec) slice(s *State, i *ssa.Slice) Value {
 				hi = n
 			}
 			x.oblige("bounds", "", i.Pos(), s, c.And(c.Le(c.IntC(0), lo), c.Le(lo, hi), c.Le(hi, n)), "string slice bounds out of range")
-			r := c.App("str.sub", Str, b, lo, hi)
-			r.AddFact(c.Eq(c.App("str.len", Int, r), c.Sub(hi, lo)))
+			r := c.App("s.sub", Str, b, lo, hi)
+			r.AddFact(c.Eq(c.App("s.len", Int, r), c.Sub(hi, lo)))
 			return r
 		}
 	case PtrV:
@@ -1271,38 +1264,24 @@ func max64(a, b int64) int64 {
 	return b
 }
 
-// leafPath describes one leaf heap of a (possibly nested) struct type: the
-// object holding the leaf is mk(elementRef); unmk inverts mk.
+// leafPath describes one leaf heap of a (possibly nested) struct element type.
 type leafPath struct {
 	key  string
 	sort *Sort
 	typ  types.Type
 	zero *Term
-	mk   func(r *Term) *Term
-	unmk func(r *Term) *Term
-	ok   func(r *Term) *Term // r is of the form mk(unmk(r))
 }
 
 func (e *Engine) structLeaves(el types.Type) []leafPath {
-	c := e.C
 	var out []leafPath
-	var walk func(t types.Type, mk, unmk func(r *Term) *Term, ok func(r *Term) *Term)
-	walk = func(t types.Type, mk, unmk func(r *Term) *Term, ok func(r *Term) *Term) {
+	var walk func(t types.Type, prefix string)
+	walk = func(t types.Type, prefix string) {
 		st := structOf(t)
 		for i := 0; i < st.NumFields(); i++ {
 			ft := st.Field(i).Type()
+			key := prefix + "." + st.Field(i).Name()
 			if structOf(ft) != nil {
-				i := i
-				t := t
-				name := "parent:" + fieldKey(t, i)
-				e.subRef(t, i, c.IntC(1)) // make sure the axioms exist
-				walk(ft,
-					func(r *Term) *Term { return e.subRef(t, i, mk(r)) },
-					func(r *Term) *Term { return unmk(c.App(name, Int, r)) },
-					func(r *Term) *Term {
-						p := c.App(name, Int, r)
-						return c.And(c.Eq(e.subRef(t, i, p), r), ok(p))
-					})
+				walk(ft, key)
 				continue
 			}
 			ls := e.leavesOf(ft)
@@ -1314,25 +1293,12 @@ func (e *Engine) structLeaves(el types.Type) []leafPath {
 				e.unsupported("zero of %s: %v", ft, err)
 			}
 			for k, l := range ls {
-				out = append(out, leafPath{key: fieldKey(t, i) + l.comp, sort: l.sort, typ: ft, zero: zs[k], mk: mk, unmk: unmk, ok: ok})
+				out = append(out, leafPath{key: key + l.comp, sort: l.sort, typ: ft, zero: zs[k]})
 			}
 		}
 	}
-	id := func(r *Term) *Term { return r }
-	walk(el, id, id, func(r *Term) *Term { return c.True() })
+	walk(el, "E:"+typeKey(el))
 	return out
-}
-
-// isElemOf: r is the reference of element k (lo <= k < hi when given) of array arr.
-func (e *Engine) isElemOf(r, arr, lo, hi *Term) *Term {
-	c := e.C
-	e.ensureElemAxioms()
-	idx := c.App("elemIdx", Int, r)
-	cs := []*Term{c.Eq(c.App("elemArr", Int, r), arr), c.Eq(c.App("elem", Int, arr, idx), r)}
-	if lo != nil {
-		cs = append(cs, c.Le(lo, idx), c.Lt(idx, hi))
-	}
-	return c.And(cs...)
 }
 
 // zeroStructElems makes every element of the fresh array arr the zero struct.
@@ -1340,12 +1306,7 @@ func (x *exec) zeroStructElems(s *State, arr *Term, el types.Type) {
 	e := x.e
 	c := e.C
 	for _, lp := range e.structLeaves(el) {
-		h := e.heapGet(s, lp.key, Array(Int, lp.sort))
-		nh := c.Fresh("Hz:"+lp.key, Array(Int, lp.sort))
-		r := c.BoundVar("r", Int)
-		in := c.And(lp.ok(r), e.isElemOf(lp.unmk(r), arr, nil, nil))
-		sel := c.Select(nh, r)
-		nh.AddFact(c.Quant("forall", []*Term{r}, c.Eq(sel, c.Ite(in, lp.zero, c.Select(h, r))), [][]*Term{{sel}}))
-		e.heapSet(s, lp.key, nh)
+		h := e.heapGet(s, lp.key, Array(Int, Array(Int, lp.sort)))
+		e.heapSet(s, lp.key, c.Store(h, arr, c.ConstArr(Array(Int, lp.sort), lp.zero)))
 	}
 }
